@@ -4,6 +4,7 @@ Exit codes (DESIGN.md section 6): 0 all obligations discharged (known findings l
 only; 3 checker error (zero obligations, unsatisfiable requires, engine crash).
 """
 import hashlib
+import re
 import json
 import multiprocessing as mp
 import os
@@ -241,6 +242,7 @@ def finish(eng, prop, tier, seed, targets, records, problems, crashes, missing, 
         for o in f.get('obligations', []):
             kf[o] = f
     kprefix = [(p, f) for f in known.get('findings', []) for p in f.get('obligation_prefixes', [])]
+    ksuffix = {f['id']: f.get('obligation_suffix') for f in known.get('findings', [])}
     for r in records:
         if r['status'] == 'discharged':
             continue
@@ -248,7 +250,8 @@ def finish(eng, prop, tier, seed, targets, records, problems, crashes, missing, 
         f = kf.get(r['name']) or kf.get(base)
         if f is None:
             for p, pf in kprefix:
-                if base.startswith(p):
+                suf = ksuffix.get(pf['id'])
+                if base.startswith(p) and (not suf or base.endswith(suf) or re.sub(r'\{[^}]*\}', '', base).endswith(suf)):
                     f = pf
                     break
         if f is not None and (prop == 'all' or prop in f.get('properties', [prop])):
